@@ -360,6 +360,28 @@ def region_map(v):
     return m
 
 
+def placement_order(v):
+    """ISO/IEC 18004 7.7.3: the data-module coordinates in the order codeword bits are placed: two-module-wide
+    columns from the right edge leftwards, alternately upwards and downwards, right module before left,
+    skipping the vertical timing column, skipping every function module"""
+    n = side(v)
+    rm = region_map(v)
+    out = []
+    col = n - 1
+    upward = True
+    while col > 0:
+        if col == 6:
+            col -= 1
+        rows = range(n - 1, -1, -1) if upward else range(n)
+        for r in rows:
+            for c in (col, col - 1):
+                if rm[(r, c)][0] == DATA:
+                    out.append((r, c))
+        upward = not upward
+        col -= 2
+    return out
+
+
 def alignment_on_timing(v):
     """coordinates where an alignment pattern overlaps a timing line"""
     n = side(v)
@@ -404,6 +426,8 @@ def self_check():
         for (r, c) in alignment_on_timing(v):
             if rm[(r, c)][1] != ((c if r == 6 else r) % 2 == 0):
                 errs.append("alignment/timing disagreement at V%d (%d,%d)" % (v, r, c))
+        if len(placement_order(v)) != raw_modules(v) or len(set(placement_order(v))) != raw_modules(v):
+            errs.append("placement order at V%d" % v)
         if len({p for ps in format_positions(side(v)).values() for p in ps}) != 30:
             errs.append("format positions at V%d" % v)
     if capacity(1, "L", "Numeric") != 41 or capacity(40, "H", "Byte") != 1273 or capacity(40, "L", "Numeric") != 7089:
